@@ -94,9 +94,29 @@ REGISTRY = {
             'algorithms that ignore bounds (TR-*, LS-*) are compared with the bounded ones only when no bound is planned active',
         ],
     },
+    'C09': {
+        'world': 'panel', 'profile': '', 'faulty': False,
+        'sessions': {'quick': 2500, 'thorough': 40000},
+        'budget': {'quick': 90, 'thorough': 1500},
+        'rule': 'One case = one seeded session on one panel table (1-8 individuals with 1-6 rows, arbitrary ids, seeded '
+                'order of individuals and of rows inside them): re-presentations in other orders, removals after the '
+                'panel declaration (whole individual, first/last row, by condition), evaluations of the trajectory, its '
+                'log and their Monte-Carlo versions through get_value_c, likelihood and simulate with T = 1..individuals+2, '
+                'map and sample-size checks. Distinct = distinct sha256 of (operation kinds, model state). Non-trivial = '
+                'at least 2 individuals with different row counts and at least one reorder or removal.',
+        'components': {'real': REAL, 'stub': ['user draw generators: deterministic functions of (individual position, draw index)']},
+        'assumptions': [
+            'A3: between a removal and the next evaluation the individual map is legitimately stale; values are judged after the evaluation rebuilt it',
+            'native (random) draw types are covered under C10, not here',
+            'per-row reference values come from the reference interpreter, products and means from the row list',
+        ],
+    },
 }
 
 LEVEL_TEXT = {
+    'C09': 'Seeded search over panel tables, presentation orders, removal histories and thread counts; per-individual '
+           'values, likelihood, simulated values, individual map and sample size are compared with a row-list reference '
+           '(product over exactly the individual\'s rows, one draw per individual and draw index, mean over R). Sampling, not proof.',
     'C04': 'Seeded search over (thread count, row permutation, partition, history) schedules the Python layer controls; '
            'every value is compared with a Python reference of the weighted sum and with every other setting at the '
            'same parameter point. Sampling, not proof; engine thread interleaving itself is not scheduled.',
@@ -120,7 +140,6 @@ LEVEL_TEXT = {
 NOT_APPLICABLE = {
     'C01': 'not yet built in this tree (planned: W-eval history clause)',
     'C03': 'not yet built in this tree (planned: by-name store histories)',
-    'C09': 'not yet built in this tree (planned: W-panel)',
     'C10': 'not yet built in this tree (planned: W-eval draws profile)',
     'C12': 'not yet built in this tree (planned: W-eval fault profile)',
     'C16': 'not yet built in this tree (planned: W-cat)',
